@@ -13,6 +13,7 @@ import MTVerif.Model.Tracer
 import MTVerif.Model.Filter
 import MTVerif.Model.Contain
 import MTVerif.Model.Anno
+import MTVerif.Model.Sig
 namespace MT
 open Sexp
 
@@ -219,6 +220,20 @@ def handle (st : DState) (req : Sexp) : Except String (DState × Sexp) :=
       let out := Anno.updateReturn st' src' (← o ret) (← o yld)
       .ok (st, match out with | none => .atom "none" | some (.src i) => .list [.atom "src", .atom (toString i)]
                                | some (.ty t) => .list [.atom "ty", sexpOfTy t])
+  | .list (.atom "renderToks" :: ps) => do
+      let kindOf (x : Sexp) : Except String Sig.PKind := match x with
+        | .atom "posOnly" => .ok .posOnly | .atom "posOrKw" => .ok .posOrKw | .atom "varPos" => .ok .varPos
+        | .atom "kwOnly" => .ok .kwOnly | .atom "varKw" => .ok .varKw | _ => .error "bad kind"
+      let params ← ps.mapM (fun x => match x with
+        | .list [n, k, d, a] => do
+            let an ← (match a with | .atom "none" => .ok none | a => (strOf a).map some)
+            .ok ({ name := ← strOf n, kind := ← kindOf k, hasDefault := d == .atom "true", anno := an } : Sig.Param)
+        | _ => .error "bad param")
+      let toks := Sig.renderToks params
+      let st' (t : Sig.Tok) : Sexp := match t with
+        | .slash => .atom "/" | .star => .atom "*"
+        | .item n nm a d => .list [.atom (toString n), .str nm, (match a with | none => .atom "none" | some x => .str x), sexpOfBool d]
+      .ok (st, .list [.list (toks.map st'), sexpOfBool (Sig.parseToks toks == some params), sexpOfBool (Sig.validKinds params)])
   | .list [.atom "trig", r, t] => do
       .ok (st, sexpOfBool ((← tyOf t).trig (← rwOf r)))
   | .list [.atom "normal", t] => do
